@@ -3,6 +3,9 @@ package c05
 import (
 	"context"
 	"errors"
+
+	"github.com/bradfitz/gomemcache/memcache"
+	"github.com/redis/go-redis/v9"
 	"sort"
 	"strconv"
 	"strings"
@@ -73,11 +76,45 @@ type vstore struct {
 	zeroOps     []bool // per harness thread: it finished without any store operation
 	// environment answers ("deviations"): see faultAt. track is set whenever the harness wants operations attributed
 	// to threads / requests (cur); it is off in the free-running race pass, where cur would itself be a data race.
+	// mode: whose ANSWER SEMANTICS the bottom store has (see answers below). "" = go-cache, the store it really is.
+	mode    string
 	track   bool
 	cur     int
 	faults  []faultAt
 	nGlobal int
 	nPer    map[int]int
+}
+
+// Back-end answer semantics. What the handlers can tell apart is only what the bottom store ANSWERS; the three
+// back-ends of the product differ in exactly two answers (gocache store/memcache, store/redis, store/go_cache v4.2.2):
+//
+//	                    Get of a missing key                              Delete of a missing key
+//	go-cache  ("")      *store.NotFound (cause: "value not found ...")    nil
+//	memcached           memcache.ErrCacheMiss, unwrapped                  memcache.ErrCacheMiss
+//	redis               *store.NotFound (cause: redis.Nil)                nil
+//
+// storage/session.go distinguishes store.NotFound{} and memcache.ErrCacheMiss (Get, Delete helper) and passes every
+// other error on; GetAndDelete passes the Delete's answer on unchanged.
+const (
+	modeGoCache   = ""
+	modeMemcached = "memcached"
+	modeRedis     = "redis"
+)
+
+var backendModes = []string{modeMemcached, modeRedis}
+
+// missGet turns go-cache's own not-found answer into the one of the back-end whose semantics are simulated.
+func (s *vstore) missGet(err error) error {
+	if err == nil || !errors.Is(err, store.NotFound{}) {
+		return err
+	}
+	switch s.mode {
+	case modeMemcached:
+		return memcache.ErrCacheMiss
+	case modeRedis:
+		return store.NotFoundWithCause(redis.Nil)
+	}
+	return err
 }
 
 // begin marks the end of seeding: operations are counted (and faults applied) from here on.
@@ -187,7 +224,7 @@ func (s *vstore) Get(ctx context.Context, key any) (any, error) {
 	}
 	v, err := s.inner.Get(ctx, key)
 	s.rec("get", k, err == nil, merged)
-	return v, err
+	return v, s.missGet(err)
 }
 
 func (s *vstore) GetWithTTL(ctx context.Context, key any) (any, time.Duration, error) {
@@ -197,6 +234,7 @@ func (s *vstore) GetWithTTL(ctx context.Context, key any) (any, time.Duration, e
 	defer s.mu.Unlock()
 	s.expire(ctx, k)
 	v, _, err := s.inner.GetWithTTL(ctx, key)
+	err = s.missGet(err)
 	s.rec("get", k, err == nil, merged)
 	var left time.Duration
 	if e, ok := s.exp[k]; ok {
@@ -244,12 +282,18 @@ func (s *vstore) Delete(ctx context.Context, key any) error {
 		s.rec("del", k, false, merged, 1)
 		return errInjected
 	}
+	s.expire(ctx, k)
+	_, gerr := s.inner.Get(ctx, key)
+	existed := gerr == nil
 	err := s.inner.Delete(ctx, key)
 	delete(s.exp, k)
 	delete(s.present, k)
-	s.rec("del", k, false, merged, f)
+	s.log = append(s.log, opRec{Op: "del", Key: k, Found: existed, Merged: merged == 1, Glued: merged == 2, After: s.abstract(), Who: s.cur, Fault: f})
 	if f == 2 {
 		return errInjected
+	}
+	if err == nil && !existed && s.mode == modeMemcached {
+		return memcache.ErrCacheMiss // memcached answers NOT_FOUND to the delete of a missing (or expired) key
 	}
 	return err
 }
